@@ -45,10 +45,16 @@ import (
 	"testing"
 	"time"
 
+	"github.com/btcsuite/btcd/btcec/v2/ecdsa"
 	"github.com/btcsuite/btcd/btcutil/v2"
+	"github.com/btcsuite/btcd/wire/v2"
+	sphinx "github.com/lightningnetwork/lightning-onion"
 	"github.com/lightningnetwork/lnd/fn/v2"
 	"github.com/lightningnetwork/lnd/graph/db/models"
+	"github.com/lightningnetwork/lnd/htlcswitch/hop"
+	"github.com/lightningnetwork/lnd/lnwallet"
 	"github.com/lightningnetwork/lnd/lnwire"
+	"github.com/lightningnetwork/lnd/routing/route"
 	"github.com/lightningnetwork/lnd/tlv"
 )
 
@@ -397,6 +403,7 @@ func (c *c09) fwd(l *channelLink, p c09pol, x c09in) {
 	orig := c.origScid(l)
 	fix := c.setFix(l, p, orig)
 	bw := uint64(l.Bandwidth())
+	aux := c.drawAux(l, bw, x.out)
 	res := "panic -1 0 0 0 0 0"
 	func() {
 		defer func() {
@@ -409,10 +416,18 @@ func (c *c09) fwd(l *channelLink, p c09pol, x c09in) {
 			hash, lnwire.MilliSatoshi(x.in),
 			lnwire.MilliSatoshi(x.out), x.ein, x.eout,
 			models.InboundFee{Base: x.ib, Rate: x.ir}, x.h,
-			orig, nil,
+			orig, aux.records(),
 		)
 		res = c09Final(le)
 	}()
+	if aux != nil {
+		c.clearAux(l)
+		c.pf("afwd %s %d %d %d %d %d %d %d %d %d %d %d %d %d %d %d %s => %s %d %d",
+			aux.str(), p.min, p.max, p.base, p.rate, p.tld, p.rej,
+			p.maxcltv, bw, x.in, x.out, x.ein, x.eout, x.h, x.ib, x.ir,
+			fix.fixStr(), res, fix.calls(), aux.seen(l, bw, x.out))
+		return
+	}
 	c.pf("fwd %d %d %d %d %d %d %d %d %d %d %d %d %d %d %d %s => %s %d",
 		p.min, p.max, p.base, p.rate, p.tld, p.rej, p.maxcltv, bw,
 		x.in, x.out, x.ein, x.eout, x.h, x.ib, x.ir, fix.fixStr(), res,
@@ -424,6 +439,7 @@ func (c *c09) transit(l *channelLink, p c09pol, x c09in) {
 	// CheckHtlcTransit passes hop.Source (the zero id) as original scid
 	fix := c.setFix(l, p, lnwire.ShortChannelID{})
 	bw := uint64(l.Bandwidth())
+	aux := c.drawAux(l, bw, x.out)
 	res := "panic -1 0 0 0 0 0"
 	func() {
 		defer func() {
@@ -433,10 +449,19 @@ func (c *c09) transit(l *channelLink, p c09pol, x c09in) {
 		}()
 		var hash [32]byte
 		le := l.CheckHtlcTransit(
-			hash, lnwire.MilliSatoshi(x.out), x.eout, x.h, nil,
+			hash, lnwire.MilliSatoshi(x.out), x.eout, x.h,
+			aux.records(),
 		)
 		res = c09Final(le)
 	}()
+	if aux != nil {
+		c.clearAux(l)
+		c.pf("atr %s %d %d %d %d %d %d %d %d %d %d %d %s => %s %d %d",
+			aux.str(), p.min, p.max, p.base, p.rate, p.tld, p.rej,
+			p.maxcltv, bw, x.out, x.eout, x.h, fix.fixStr(), res,
+			fix.calls(), aux.seen(l, bw, x.out))
+		return
+	}
 	c.pf("tr %d %d %d %d %d %d %d %d %d %d %d %s => %s %d",
 		p.min, p.max, p.base, p.rate, p.tld, p.rej, p.maxcltv, bw,
 		x.out, x.eout, x.h, fix.fixStr(), res, fix.calls())
@@ -1005,6 +1030,12 @@ func TestVerifC09(t *testing.T) {
 	}
 	seed, _ := strconv.ParseInt(os.Getenv("VERIF_SEED"), 10, 64)
 	tier := os.Getenv("VERIF_TIER")
+	// the databases of the test channels / switches live in t.TempDir():
+	// keep them in memory when the machine offers a tmpfs (every write
+	// transaction fsyncs).
+	if st, err := os.Stat("/dev/shm"); err == nil && st.IsDir() {
+		t.Setenv("TMPDIR", "/dev/shm")
+	}
 	f, err := os.Create(outPath)
 	if err != nil {
 		t.Fatal(err)
@@ -1062,6 +1093,13 @@ func TestVerifC09(t *testing.T) {
 		nSw = 80000
 	}
 	c.switchLevel(nSw)
+
+	// level 3: end to end over a real three-hop network
+	nE2E := 150
+	if tier == "thorough" {
+		nE2E = 1500
+	}
+	c.e2eLevel(nE2E)
 
 	t.Logf("C09 harness: %d cases, %d lines", c.n, c.lines)
 }
@@ -1544,10 +1582,694 @@ func (c *c09) switchLevel(nEvals int) {
 			}
 		}
 		c.swEval(sw, k%8 == 7)
+		if k%4 == 1 {
+			c.fauEval(sw)
+		}
+		if k%4 == 3 {
+			c.circEval(sw)
+		}
 	}
 	c.endCase()
 	// outside the switch the links use the plain fixtures again
 	for _, f := range c.fix {
 		f.swAlias = nil
 	}
+}
+
+// ---- level 3: end to end over a real three-hop network -----------------------
+//
+// alice -> bob -> carol with the package's newThreeHopNetwork: real switches,
+// real channelLinks on both sides of both channels, real lnwallet channels.
+// Nothing of the forwarding path is mocked except the onion codec (the
+// package's mockHopIterator: the per-hop payloads are given in clear) and the
+// failure obfuscator (plaintext). One evaluation = one payment:
+//
+//   e2e min max base rate tld rej maxcltv bw in out ein eout h ib ir => OUTCOME payload code
+//     alice sends update_add_htlc(amount = in, expiry = ein) to bob with the
+//     onion payload {next = the bob->carol channel, amt_to_forward = out,
+//     outgoing_cltv = eout} for bob. (min..maxcltv, bw) = forwarding policy,
+//     cfg and Bandwidth() of bob's OUTGOING link (bob->carol), (ib, ir) = the
+//     inbound fee of the policy of bob's INCOMING link (alice->bob), h = bob's
+//     best height. Both policies are installed with ONE call of
+//     Switch.UpdateForwardingPolicies; the incoming link's outgoing-side fields
+//     and the outgoing link's own inbound fee are decoys (values that would
+//     change the verdict if they were used). The path exercised in bob:
+//     channelLink.processRemoteAdds (packet construction from the add and the
+//     payload) -> Switch.ForwardPackets -> handlePacketAdd -> CheckHtlcForward
+//     -> failAddPacket / handleSwitchPacket -> the real outgoing link.
+//   snd min max base rate tld rej maxcltv bw out eout h => OUTCOME payload code
+//     alice's own Switch.SendHTLC(first hop = alice->bob, amount = out, expiry
+//     = eout) with bob as exit hop; (min.., bw) = policy/cfg/bandwidth of
+//     alice's link, h = alice's best height (SendHTLC -> getLocalLink ->
+//     CheckHtlcTransit).
+// OUTCOME: settled (the payment went through) | exitfail (failed by the final
+// hop with a final-hop failure: the hop under test forwarded it) | VERDICT (the
+// failure of the hop under test as decoded by the sender; for snd the local
+// *LinkError with its detail) | local:VERDICT (e2e only: alice's own switch
+// refused; not an evaluation of bob) | error:<text>.
+
+func c09Payload(next lnwire.ShortChannelID, amt uint64, cltv uint32) *hop.Payload {
+	var nb [8]byte
+	binary.BigEndian.PutUint64(nb[:], next.ToUint64())
+	return hop.NewLegacyPayload(&sphinx.HopData{
+		NextAddress: nb, ForwardAmount: amt, OutgoingCltv: cltv,
+	})
+}
+
+func c09MsgStr(msg lnwire.FailureMessage, detail FailureDetail) string {
+	if msg == nil {
+		return "nilmsg -1 0"
+	}
+	var b bytes.Buffer
+	if err := lnwire.EncodeFailure(&b, msg, 0); err != nil {
+		return fmt.Sprintf("encodefail -1 %d", uint16(msg.Code()))
+	}
+	var name, payload string
+	var code int
+	fmt.Sscan(c09FinalWire(b.Bytes(), detail), &name, &payload, &code)
+	return fmt.Sprintf("%s %s %d", name, payload, code)
+}
+
+// c09Outcome classifies the result of a payment attempt.
+func c09Outcome(err error) string {
+	if err == nil {
+		return "settled -1 0"
+	}
+	var le *LinkError
+	if errors.As(err, &le) {
+		return "local:" + c09MsgStr(le.WireMessage(), le.FailureDetail)
+	}
+	var fe *ForwardingError
+	if errors.As(err, &fe) {
+		switch fe.WireMessage().(type) {
+		case *lnwire.FailIncorrectDetails,
+			*lnwire.FailFinalIncorrectCltvExpiry,
+			*lnwire.FailFinalIncorrectHtlcAmount,
+			*lnwire.FailFinalExpiryTooSoon:
+
+			return fmt.Sprintf("exitfail -1 %d",
+				uint16(fe.WireMessage().Code()))
+		}
+		return c09MsgStr(fe.WireMessage(), nil)
+	}
+	txt := []byte(err.Error())
+	for i := range txt {
+		if txt[i] == ' ' || txt[i] == '\n' || txt[i] == '\t' {
+			txt[i] = '_'
+		}
+	}
+	if len(txt) > 60 {
+		txt = txt[:60]
+	}
+	return "error:" + string(txt) + " -1 0"
+}
+
+type c09net struct {
+	n *threeHopNetwork
+}
+
+func (c *c09) setHeights(n *threeHopNetwork, h uint32) {
+	atomic.StoreUint32(&n.aliceServer.htlcSwitch.bestHeight, h)
+	atomic.StoreUint32(&n.bobServer.htlcSwitch.bestHeight, h)
+	atomic.StoreUint32(&n.carolServer.htlcSwitch.bestHeight, h)
+}
+
+func c09SetCltvCfg(l *channelLink, rej, maxcltv uint32) {
+	l.Lock()
+	l.cfg.OutgoingCltvRejectDelta = rej
+	l.cfg.MaxOutgoingCltvExpiry = maxcltv
+	l.Unlock()
+}
+
+func c09FwdPolicy(p c09pol, ib, ir int32) models.ForwardingPolicy {
+	return models.ForwardingPolicy{
+		MinHTLCOut:    lnwire.MilliSatoshi(p.min),
+		MaxHTLC:       lnwire.MilliSatoshi(p.max),
+		BaseFee:       lnwire.MilliSatoshi(p.base),
+		FeeRate:       lnwire.MilliSatoshi(p.rate),
+		TimeLockDelta: p.tld,
+		InboundFee:    models.InboundFee{Base: ib, Rate: ir},
+	}
+}
+
+// e2ePolicy: a realistic policy (everything inside the domain).
+func (c *c09) e2ePolicy() c09pol {
+	var p c09pol
+	p.min = c.pick64(0, 1000, 5000, c.logU(1000, 100_000))
+	p.max = c.pick64(0, 0, 150_000_000, c.logU(200_000, 250_000_000))
+	p.base = c.pick64(0, 1, 1000, c.logU(0, 20_000))
+	p.rate = c.pick64(0, 1, 100, 2500, 50_000, c.logU(0, 100_000))
+	p.tld = c.pick32(6, 18, 40, 80, 144, 1+uint32(c.rng.Intn(200)))
+	p.rej = c.pick32(3, 3, 10, 13, uint32(c.rng.Intn(20)))
+	p.maxcltv = c.pick32(2016, 2016, 1000, 500+uint32(c.rng.Intn(2000)))
+	return p
+}
+
+func (c *c09) e2eEval(n *threeHopNetwork) {
+	h := c.pick32(100, 100, 1000, 840_000, uint32(1000+c.rng.Intn(900_000)))
+	c.setHeights(n, h)
+	p := c.e2ePolicy()
+	ib := c.pickI(0, 0, -1000, 1000, -1, 1, int32(c.rng.Intn(20001)-10000))
+	ir := c.pickI(0, 0, -100, 100, -2500, 2500, -50_000, 50_000,
+		int32(c.rng.Intn(200_001)-100_000))
+
+	in1, out1 := n.firstBobChannelLink, n.secondBobChannelLink
+	// decoys: the incoming link's own outgoing-side policy would reject
+	// everything (huge min_htlc, huge fees, huge delta); the outgoing link's
+	// own inbound fee differs from the incoming link's.
+	decoyIn := models.ForwardingPolicy{
+		MinHTLCOut: 1 << 50, MaxHTLC: 1, BaseFee: 1 << 40, FeeRate: 900_000,
+		TimeLockDelta: 1500,
+		InboundFee:    models.InboundFee{Base: ib, Rate: ir},
+	}
+	n.bobServer.htlcSwitch.UpdateForwardingPolicies(
+		map[wire.OutPoint]models.ForwardingPolicy{
+			in1.ChannelPoint():  decoyIn,
+			out1.ChannelPoint(): c09FwdPolicy(p, ib^0x5555, -ir-7),
+		},
+	)
+	c09SetCltvCfg(out1, p.rej, p.maxcltv)
+	c09SetCltvCfg(in1, 1<<20, 0) // decoy
+	// alice's own link never stands in the way
+	n.aliceServer.htlcSwitch.UpdateForwardingPolicies(
+		map[wire.OutPoint]models.ForwardingPolicy{
+			n.aliceChannelLink.ChannelPoint(): {},
+		},
+	)
+	c09SetCltvCfg(n.aliceChannelLink, 0, 1<<30)
+
+	// base point satisfying every rule, then at most one threshold moved
+	var x c09in
+	x.ib, x.ir, x.h = ib, ir, h
+	lo, hi := p.min, uint64(200_000_000)
+	if p.max != 0 && p.max < hi {
+		hi = p.max
+	}
+	if lo < 1000 {
+		lo = 1000
+	}
+	if lo > hi {
+		lo = hi
+	}
+	x.out = c.logU(lo, hi)
+	eoLo := uint64(h) + uint64(p.rej) + 1
+	if eoLo < uint64(h)+testInvoiceCltvExpiry {
+		eoLo = uint64(h) + testInvoiceCltvExpiry
+	}
+	x.eout = uint32(eoLo + uint64(c.rng.Intn(40)))
+	gap := p.tld + uint32(c.rng.Intn(3))*uint32(c.rng.Intn(30))
+	if gap > p.maxcltv {
+		gap = p.maxcltv
+	}
+	x.ein = x.eout + gap
+	mut := c.rng.Intn(16)
+	switch mut {
+	case 0: // one below min_htlc / exactly min_htlc
+		if p.min > 1001 {
+			x.out = p.min - uint64(c.rng.Intn(2))
+		}
+	case 1: // exactly max_htlc / one above
+		if p.max != 0 {
+			x.out = p.max + uint64(c.rng.Intn(2))
+		}
+	case 2: // outgoing expiry at / one past the too-soon bound
+		x.eout = h + p.rej + uint32(c.rng.Intn(2))
+		x.ein = x.eout + gap
+	case 3: // outgoing expiry at / one past the too-far bound
+		x.eout = h + p.maxcltv + uint32(c.rng.Intn(2))
+		x.ein = x.eout + gap
+	case 4, 5: // expiry gap one below / at the time-lock delta
+		x.ein = x.eout + p.tld - uint32(c.rng.Intn(2))
+	case 6: // expiry gap at / one above the maximum
+		x.ein = x.eout + p.maxcltv + uint32(c.rng.Intn(2))
+	case 7: // incoming expiry below the outgoing one
+		x.ein = x.eout - uint32(1+c.rng.Intn(3))
+	}
+	x.in = validIn(p, x.out, ib, ir)
+	switch mut {
+	case 8, 9, 10, 11: // one msat short of / exactly the required fee
+		if c.rng.Intn(2) == 0 && x.in > 0 {
+			x.in--
+		}
+	case 12: // incoming below outgoing (only reachable with a discount)
+		if x.out > 1 {
+			x.in = x.out - 1
+		}
+	case 13:
+		x.in += uint64(c.rng.Intn(1000))
+	}
+	if x.in == 0 {
+		x.in = 1
+	}
+
+	bw := uint64(out1.Bandwidth())
+	hops := []*hop.Payload{
+		c09Payload(out1.ShortChanID(), x.out, x.eout),
+		c09Payload(hop.Exit, x.out, x.eout),
+	}
+	res := "panic -1 0"
+	func() {
+		defer func() {
+			if r := recover(); r != nil {
+				res = "panic -1 0"
+			}
+		}()
+		_, err := makePayment(
+			n.aliceServer, n.carolServer, in1.ShortChanID(), hops,
+			lnwire.MilliSatoshi(x.out), lnwire.MilliSatoshi(x.in), x.ein,
+		).Wait(20 * time.Second)
+		res = c09Outcome(err)
+	}()
+	c.pf("e2e %d %d %d %d %d %d %d %d %d %d %d %d %d %d %d => %s",
+		p.min, p.max, p.base, p.rate, p.tld, p.rej, p.maxcltv, bw,
+		x.in, x.out, x.ein, x.eout, x.h, x.ib, x.ir, res)
+}
+
+func (c *c09) sndEval(n *threeHopNetwork) {
+	h := c.pick32(100, 1000, 840_000, uint32(1000+c.rng.Intn(900_000)))
+	c.setHeights(n, h)
+	p := c.e2ePolicy()
+	l := n.aliceChannelLink
+	n.aliceServer.htlcSwitch.UpdateForwardingPolicies(
+		map[wire.OutPoint]models.ForwardingPolicy{
+			l.ChannelPoint(): c09FwdPolicy(p, 77, -5),
+		},
+	)
+	c09SetCltvCfg(l, p.rej, p.maxcltv)
+	lo, hi := p.min, uint64(200_000_000)
+	if p.max != 0 && p.max < hi {
+		hi = p.max
+	}
+	if lo < 1000 {
+		lo = 1000
+	}
+	if lo > hi {
+		lo = hi
+	}
+	out := c.logU(lo, hi)
+	eoLo := uint64(h) + uint64(p.rej) + 1
+	if eoLo < uint64(h)+testInvoiceCltvExpiry {
+		eoLo = uint64(h) + testInvoiceCltvExpiry
+	}
+	eout := uint32(eoLo + uint64(c.rng.Intn(40)))
+	switch c.rng.Intn(8) {
+	case 0:
+		if p.min > 1001 {
+			out = p.min - uint64(c.rng.Intn(2))
+		}
+	case 1:
+		if p.max != 0 {
+			out = p.max + uint64(c.rng.Intn(2))
+		}
+	case 2:
+		eout = h + p.rej + uint32(c.rng.Intn(2))
+	case 3:
+		eout = h + p.maxcltv + uint32(c.rng.Intn(2))
+	}
+	bw := uint64(l.Bandwidth())
+	hops := []*hop.Payload{c09Payload(hop.Exit, out, eout)}
+	res := "panic -1 0"
+	func() {
+		defer func() {
+			if r := recover(); r != nil {
+				res = "panic -1 0"
+			}
+		}()
+		_, err := makePayment(
+			n.aliceServer, n.bobServer, l.ShortChanID(), hops,
+			lnwire.MilliSatoshi(out), lnwire.MilliSatoshi(out), eout,
+		).Wait(20 * time.Second)
+		res = c09Outcome(err)
+	}()
+	c.pf("snd %d %d %d %d %d %d %d %d %d %d %d => %s",
+		p.min, p.max, p.base, p.rate, p.tld, p.rej, p.maxcltv, bw, out,
+		eout, h, res)
+}
+
+func (c *c09) e2eLevel(nEvals int) {
+	channels, _, err := createClusterChannels(
+		c.t, btcutil.SatoshiPerBitcoin*5, btcutil.SatoshiPerBitcoin*5,
+	)
+	if err != nil {
+		c.t.Fatalf("createClusterChannels: %v", err)
+	}
+	n := newThreeHopNetwork(c.t, channels.aliceToBob, channels.bobToAlice,
+		channels.bobToCarol, channels.carolToBob, testStartingHeight)
+	if err := n.start(); err != nil {
+		c.t.Fatalf("three hop network: %v", err)
+	}
+	defer n.stop()
+	t0 := time.Now()
+	defer func() {
+		c.t.Logf("C09 level 3: %d payments in %v", nEvals, time.Since(t0))
+	}()
+	for k := 0; k < nEvals; k++ {
+		if k%25 == 0 {
+			if k > 0 {
+				c.endCase()
+			}
+			c.startCase("e2e")
+		}
+		if k%5 == 4 {
+			c.sndEval(n)
+		} else {
+			c.e2eEval(n)
+		}
+	}
+	c.endCase()
+}
+
+// ---- Switch.failAliasUpdate, called directly ---------------------------------
+//
+//   fau scid inc ia a2r bi nal al0 sign F(bi) F(a2r) F(scid) own => asked R
+// scid = the id passed, inc = the `incoming` flag, ia = cfg.IsAlias(scid), a2r =
+// s.aliasToReal[scid], bi = s.baseIndex[scid] (-1: no entry), nal / al0 = number
+// of aliases and first alias of forwardingIndex[bi].getAliases() (-1 -1: no
+// such link), sign = cfg.SignAliasUpdate succeeds, F(k) = what
+// cfg.FetchLastChannelUpdate returns for key k during this call (4 integers,
+// first 0: error / k absent), own = 4 integers: the fixture update of the
+// channel that owns scid by construction (first 0: nobody / lookup error).
+// asked = the key FetchLastChannelUpdate was called with (-1: not called),
+// R = fingerprint of the returned update (first 0: nil).
+func (c *c09) fauEval(sw *c09sw) {
+	s := sw.s
+	// all ids the switch could be asked about
+	type idOwner struct {
+		id    lnwire.ShortChannelID
+		owner *c09swLink
+	}
+	var ids []idOwner
+	for _, ls := range sw.peers {
+		for _, l := range ls {
+			own, aliases, conf := l.ids()
+			ids = append(ids, idOwner{own, l})
+			for _, a := range aliases {
+				ids = append(ids, idOwner{a, l})
+			}
+			if conf != nil {
+				ids = append(ids, idOwner{*conf, l})
+			}
+		}
+	}
+	ids = append(ids, idOwner{lnwire.NewShortChanIDFromInt(999_999), nil},
+		idOwner{c09Alias(9_999), nil}, idOwner{sw.in.ShortChanID(), nil})
+	pick := ids[c.rng.Intn(len(ids))]
+	scid, incoming := pick.id, c.rng.Intn(2) == 0
+
+	// fresh fixtures for every channel
+	for _, ls := range sw.peers {
+		for _, l := range ls {
+			c.setFix(l.real, c.e2ePolicy(), scid)
+		}
+	}
+	signOk := c.rng.Intn(8) != 0
+	var asked []lnwire.ShortChannelID
+	origFetch, origSign := s.cfg.FetchLastChannelUpdate, s.cfg.SignAliasUpdate
+	s.cfg.FetchLastChannelUpdate = func(k lnwire.ShortChannelID) (
+		*lnwire.ChannelUpdate1, error) {
+
+		asked = append(asked, k)
+		return origFetch(k)
+	}
+	s.cfg.SignAliasUpdate = func(u *lnwire.ChannelUpdate1) (
+		*ecdsa.Signature, error) {
+
+		if !signOk {
+			return nil, errors.New("c09: signer unavailable")
+		}
+		return origSign(u)
+	}
+	defer func() {
+		s.cfg.FetchLastChannelUpdate, s.cfg.SignAliasUpdate = origFetch, origSign
+	}()
+
+	fetchStr := func(k lnwire.ShortChannelID, present bool) string {
+		if !present {
+			return "0 0 0 0"
+		}
+		u, err := origFetch(k)
+		if err != nil {
+			return "0 0 0 0"
+		}
+		return c09fpStr(u)
+	}
+	ia, a2r, bi, nal, al0 := 0, "-1", "-1", -1, "-1"
+	if s.cfg.IsAlias(scid) {
+		ia = 1
+	}
+	s.indexMtx.RLock()
+	realScid, hasReal := s.aliasToReal[scid]
+	baseScid, hasBase := s.baseIndex[scid]
+	if hasReal {
+		a2r = strconv.FormatUint(realScid.ToUint64(), 10)
+	}
+	if hasBase {
+		bi = strconv.FormatUint(baseScid.ToUint64(), 10)
+		if l, ok := s.forwardingIndex[baseScid]; ok {
+			al := l.getAliases()
+			nal = len(al)
+			if nal > 0 {
+				al0 = strconv.FormatUint(al[0].ToUint64(), 10)
+			}
+		}
+	}
+	s.indexMtx.RUnlock()
+	fB, fR, fS := fetchStr(baseScid, hasBase), fetchStr(realScid, hasReal),
+		fetchStr(scid, true)
+	own := "0 0 0 0"
+	if pick.owner != nil {
+		f := c.fix[pick.owner.real]
+		if !f.fetchErr && f.fetched != nil {
+			own = c09fpStr(f.fetched)
+		}
+	}
+	res := "panic"
+	func() {
+		defer func() {
+			if r := recover(); r != nil {
+				res = "-2 0 0 0 0"
+			}
+		}()
+		u := s.failAliasUpdate(scid, incoming)
+		key := "-1"
+		if len(asked) == 1 {
+			key = strconv.FormatUint(asked[0].ToUint64(), 10)
+		} else if len(asked) > 1 {
+			key = "-3"
+		}
+		res = key + " " + c09fpStr(u)
+	}()
+	inc, sg := 0, 0
+	if incoming {
+		inc = 1
+	}
+	if signOk {
+		sg = 1
+	}
+	c.pf("fau %d %d %d %s %s %d %s %d %s %s %s %s => %s", scid.ToUint64(), inc,
+		ia, a2r, bi, nal, al0, sg, fB, fR, fS, own, res)
+}
+
+// ---- aux traffic shaper --------------------------------------------------------
+//
+//   afwd AUX <the integers of fwd> FIX => RES calls seen
+//   atr  AUX <the integers of tr>  FIX => RES calls seen
+// AUX = custom handle auxbw: what the link's cfg.AuxTrafficShaper answers during
+// this evaluation: IsCustomHTLC (0/1), ShouldHandleTraffic (0/1, -1: error),
+// PaymentBandwidth (msat, -1: error). seen = 1 iff every call the shaper
+// received had the expected arguments (the link's own short channel id, the
+// link's Bandwidth(), the HTLC amount, the custom records of the call) and
+// PaymentBandwidth was called iff ShouldHandleTraffic returned true.
+type c09aux struct {
+	AuxTrafficShaper // nil: the remaining methods must not be reached
+
+	custom     bool
+	handle     int
+	bw         int64
+	recs       lnwire.CustomRecords
+	shouldN    int
+	payN       int
+	customN    int
+	badArgs    int
+	cid        lnwire.ShortChannelID
+	linkBw, amt lnwire.MilliSatoshi
+}
+
+func (a *c09aux) records() lnwire.CustomRecords {
+	if a == nil {
+		return nil
+	}
+	return a.recs
+}
+
+func (a *c09aux) IsCustomHTLC(r lnwire.CustomRecords) bool {
+	a.customN++
+	if len(r) != len(a.recs) {
+		a.badArgs++
+	}
+	return a.custom
+}
+
+func (a *c09aux) ShouldHandleTraffic(cid lnwire.ShortChannelID,
+	_, htlcBlob fn.Option[tlv.Blob]) (bool, error) {
+
+	a.shouldN++
+	if cid != a.cid || htlcBlob.IsSome() != (len(a.recs) > 0) {
+		a.badArgs++
+	}
+	if a.handle < 0 {
+		return false, errors.New("c09: shaper unavailable")
+	}
+	return a.handle == 1, nil
+}
+
+func (a *c09aux) PaymentBandwidth(_, htlcBlob, _ fn.Option[tlv.Blob],
+	linkBandwidth, htlcAmt lnwire.MilliSatoshi, _ lnwallet.AuxHtlcView,
+	_ route.Vertex) (lnwire.MilliSatoshi, error) {
+
+	a.payN++
+	if linkBandwidth != a.linkBw || htlcAmt != a.amt ||
+		htlcBlob.IsSome() != (len(a.recs) > 0) {
+
+		a.badArgs++
+	}
+	if a.bw < 0 {
+		return 0, errors.New("c09: no bandwidth")
+	}
+	return lnwire.MilliSatoshi(a.bw), nil
+}
+
+func (a *c09aux) str() string {
+	cu := 0
+	if a.custom {
+		cu = 1
+	}
+	return fmt.Sprintf("%d %d %d", cu, a.handle, a.bw)
+}
+
+// seen: 1 iff the shaper was used as expected.
+func (a *c09aux) seen(l *channelLink, bw, out uint64) int {
+	if a.badArgs != 0 || a.customN > 1 || a.shouldN > 1 || a.payN > 1 {
+		return 0
+	}
+	if a.payN == 1 && (a.shouldN != 1 || a.handle != 1) {
+		return 0
+	}
+	return 1
+}
+
+// drawAux installs, one evaluation in six, a traffic shaper on the link.
+func (c *c09) drawAux(l *channelLink, bw, out uint64) *c09aux {
+	if c.rng.Intn(6) != 0 {
+		return nil
+	}
+	a := &c09aux{cid: l.ShortChanID(), linkBw: lnwire.MilliSatoshi(bw),
+		amt: lnwire.MilliSatoshi(out)}
+	a.custom = c.rng.Intn(4) == 0
+	a.handle = int(c.pick64(0, 1, 1, 1, 2)) - 0
+	if a.handle == 2 {
+		a.handle = -1
+	}
+	cand := []uint64{bw, out, out - 1, out + 1, 0, bw / 2, c.logU(0, c09Amt13)}
+	v := cand[c.rng.Intn(len(cand))]
+	if v > math.MaxInt64 {
+		v = math.MaxInt64
+	}
+	a.bw = int64(v)
+	if c.rng.Intn(8) == 0 {
+		a.bw = -1
+	}
+	if c.rng.Intn(2) == 0 {
+		a.recs = lnwire.CustomRecords{65536 + uint64(c.rng.Intn(9)): {1, 2}}
+	}
+	l.Lock()
+	l.cfg.AuxTrafficShaper = fn.Some[AuxTrafficShaper](a)
+	l.Unlock()
+	return a
+}
+
+func (c *c09) clearAux(l *channelLink) {
+	l.Lock()
+	l.cfg.AuxTrafficShaper = fn.None[AuxTrafficShaper]()
+	l.Unlock()
+}
+
+// ---- Switch.checkCircularForward, called directly -------------------------------
+//
+//   circ in out allow biIn biOut => R
+// in / out = the incoming and the requested outgoing id, allow = the
+// allowCircular argument, biIn / biOut = s.baseIndex[id] (-1: no entry). R = 0:
+// nil, 1: FailTemporaryChannelFailure without channel_update and with detail
+// OutgoingFailureCircularRoute, 2: anything else.
+func (c *c09) circEval(sw *c09sw) {
+	s := sw.s
+	var ids []lnwire.ShortChannelID
+	for _, ls := range sw.peers {
+		for _, l := range ls {
+			own, aliases, conf := l.ids()
+			ids = append(ids, own)
+			ids = append(ids, aliases...)
+			if conf != nil {
+				ids = append(ids, *conf)
+			}
+		}
+	}
+	ids = append(ids, lnwire.NewShortChanIDFromInt(999_999), c09Alias(9_999),
+		sw.in.ShortChanID())
+	in := ids[c.rng.Intn(len(ids))]
+	out := ids[c.rng.Intn(len(ids))]
+	if c.rng.Intn(3) == 0 {
+		// another id of the same channel, or the same id
+		for _, ls := range sw.peers {
+			for _, l := range ls {
+				own, aliases, conf := l.ids()
+				all := append([]lnwire.ShortChannelID{own}, aliases...)
+				if conf != nil {
+					all = append(all, *conf)
+				}
+				for _, a := range all {
+					if a == in {
+						out = all[c.rng.Intn(len(all))]
+					}
+				}
+			}
+		}
+	}
+	allow := c.rng.Intn(3) == 0
+	bi := func(id lnwire.ShortChannelID) string {
+		s.indexMtx.RLock()
+		defer s.indexMtx.RUnlock()
+		if b, ok := s.baseIndex[id]; ok {
+			return strconv.FormatUint(b.ToUint64(), 10)
+		}
+		return "-1"
+	}
+	biIn, biOut := bi(in), bi(out)
+	res := 2
+	func() {
+		defer func() {
+			if r := recover(); r != nil {
+				res = 2
+			}
+		}()
+		var hash [32]byte
+		le := s.checkCircularForward(in, out, allow, hash)
+		switch {
+		case le == nil:
+			res = 0
+		default:
+			m, ok := le.WireMessage().(*lnwire.FailTemporaryChannelFailure)
+			if ok && m.Update == nil &&
+				le.FailureDetail == OutgoingFailureCircularRoute {
+
+				res = 1
+			}
+		}
+	}()
+	al := 0
+	if allow {
+		al = 1
+	}
+	c.pf("circ %d %d %d %s %s => %d", in.ToUint64(), out.ToUint64(), al, biIn,
+		biOut, res)
 }
